@@ -50,7 +50,7 @@ type c02Env struct {
 	id     Ident
 }
 
-var c02MutKinds = []string{"bitflip", "bytesub", "truncate", "truncate-0", "append", "other-block", "empty", "oversized", "prefix-of-other", "dup-body"}
+var c02MutKinds = []string{"bitflip", "bytesub", "truncate", "truncate-0", "append", "other-block", "empty", "oversized", "prefix-of-other", "dup-body", "cut-mid-body"}
 
 // c02Mutate returns the corrupted body (different from orig) or nil.
 func c02Mutate(r *rand.Rand, kind string, orig []byte, other []byte) []byte {
@@ -195,7 +195,7 @@ func c02BigBlocks(c *vf.Ctx) {
 
 func c02Corrupt(c *vf.Ctx) {
 	const sub = "corrupt-sync"
-	if !c.Active(sub) {
+	if !c.Active(sub) && !c.Active("failing-store") {
 		return
 	}
 	r0 := c.Rand(sub, -1)
@@ -221,6 +221,9 @@ func c02Corrupt(c *vf.Ctx) {
 		envs = append(envs, e)
 	}
 	n := c.N(2000, 60000)
+	if !c.Active(sub) {
+		n = 0
+	}
 	for i := 0; i < n; i++ {
 		if !c.Mine(sub, i) {
 			continue
@@ -246,10 +249,23 @@ func c02Corrupt(c *vf.Ctx) {
 		}
 		hit := 0
 		var served [][]byte
+		var cutRest []byte // for cut-mid-body: what the connection would have carried after the cut
 		mk := func(tc cid.Cid, rr *rand.Rand) func(ev ReqEvent) *Fault {
 			return func(ev ReqEvent) *Fault {
 				if ev.Rsrc != tc.String() {
 					return nil
+				}
+				if kind == "cut-mid-body" {
+					// the full length is announced, the connection is cut after k bytes: a read error mid-body
+					body, _ := e.pub.Raw(tc)
+					if len(body) < 2 {
+						return nil
+					}
+					k := 1 + rr.Intn(len(body)-1)
+					hit++
+					served = append(served, body[:k])
+					cutRest = append([]byte(nil), body[k:]...)
+					return &Fault{Label: kind, Truncate: k}
 				}
 				return &Fault{Label: kind, Mutate: func(orig []byte) []byte {
 					other, _ := httpBodyOf(e, e.chain.Cids[otherIdx])
@@ -361,6 +377,37 @@ func c02Corrupt(c *vf.Ctx) {
 			} else if hit == 0 && err != nil {
 				c.Fail(sub, i, "honest-sync-failed", err.Error(), wit())
 			}
+			// phase 1b: after a response that broke off mid-body, the next answer for the same CID carries only
+			// the remainder (a verifier that keeps state across requests would accept it)
+			if kind == "cut-mid-body" && hit > 0 && cutRest != nil && !(announced && phase1Err == nil) {
+				rest := cutRest
+				e.front.Plan = func(ev ReqEvent) *Fault {
+					if ev.Rsrc != target.String() {
+						return nil
+					}
+					return &Fault{Label: "remainder-only", Body: rest}
+				}
+				hl.reset()
+				_, err1b := doSync()
+				if err1b == errNoNotification {
+					c.Fail(sub, i, "no-notification-after-reannounce", "remainder-only phase", wit())
+					return
+				}
+				phases = append(phases, fmt.Sprintf("remainder-only answer (%d bytes): err=%v", len(rest), err1b))
+				audit("after remainder-only answer")
+				c.Inc("remainder_only_answers")
+				if !twoAddrs {
+					if err1b == nil {
+						c.Fail(sub, i, "corrupted-sync-succeeded:remainder-only", fmt.Sprintf("hash %s", e.pfx.name), wit())
+					}
+					for _, h := range hl.list() {
+						if h.Equals(target) {
+							c.Fail(sub, i, "corrupted-block-reported:remainder-only", target.String(), wit())
+						}
+					}
+				}
+				phase1Err = err1b
+			}
 			// phase 2: honest retry (a re-announcement of a head that was synced successfully is
 			// legitimately ignored as already seen, so there is nothing to retry in that case)
 			e.front.Plan = nil
@@ -418,9 +465,109 @@ func c02Corrupt(c *vf.Ctx) {
 			c.Sample(sub, wit())
 		}
 	}
+	c02FailingStore(c, envs)
 }
 
 // httpBodyOf returns the bytes the publisher serves for a block.
+// c02FailingStore: the local store fails part-way through writing one block (out of space). Whatever the
+// subscriber does with that, nothing that does not hash to its CID may be committed, reported or counted.
+func c02FailingStore(c *vf.Ctx, envs []*c02Env) {
+	const sub = "failing-store"
+	if !c.Active(sub) {
+		return
+	}
+	n := c.N(600, 20000)
+	for i := 0; i < n; i++ {
+		if !c.Mine(sub, i) {
+			continue
+		}
+		r := c.Rand(sub, i)
+		e := envs[r.Intn(len(envs))]
+		L := 1 + r.Intn(5)
+		headIdx := L - 1
+		at := r.Intn(L)
+		capB := r.Intn(260)
+		if r.Intn(4) == 0 {
+			capB = r.Intn(40000) // beyond any write buffer a client may put in front of the store
+		}
+		seg := int64(0)
+		if r.Intn(3) == 0 {
+			seg = int64(1 + r.Intn(L))
+		}
+		desc := fmt.Sprintf("hash=%s L=%d store-write-fails-at-block-write=%d after=%dB seg=%d", e.pfx.name, L, at, capB, seg)
+		c.Cur(sub, i, desc)
+		e.front.ResetLog()
+		e.front.Plan = nil
+		e.front.Pub.SetRoot(e.chain.Cids[headIdx])
+		dst := NewStore()
+		hl := &hookLog{}
+		opts := []dagsync.Option{dagsync.BlockHook(adPrevHook(dst, hl))}
+		if seg != 0 {
+			opts = append(opts, dagsync.SegmentDepthLimit(seg))
+		}
+		s, err := newSubscriber(dst, opts...)
+		if err != nil {
+			c.Fail(sub, i, "harness-subscriber", err.Error(), nil)
+			continue
+		}
+		var phases []string
+		wit := func() any {
+			return map[string]any{"case": desc, "phases": phases, "hooks": idxList(e.chain, hl.list())}
+		}
+		audit := func(phase string) {
+			n, bad := dst.Audit()
+			c.Add("audited_store_entries", int64(n))
+			if len(bad) > 0 {
+				c.Fail(sub, i, "store-holds-block-not-matching-its-cid:store-write-failed", fmt.Sprintf("%s: %v", phase, bad), wit())
+			}
+			for _, h := range hl.list() {
+				raw, ok := dst.Raw(h)
+				want, _ := e.pub.Raw(h)
+				if !ok || !bytes.Equal(raw, want) {
+					c.Fail(sub, i, "hook-for-block-not-intact-in-store:store-write-failed", fmt.Sprintf("%s: %s", phase, h), wit())
+				}
+			}
+		}
+		c.Guard(sub, i, wit, func() {
+			dst.SetWriteFault(at, capB)
+			_, err := s.SyncAdChain(context.Background(), e.front.AddrInfo())
+			hit := dst.WriteFaultHits()
+			phases = append(phases, fmt.Sprintf("sync with failing store: err=%v write-faults=%d", err, hit))
+			audit("after sync with failing store")
+			if hit > 0 {
+				c.Inc("store_write_faults_hit")
+				if err == nil {
+					c.Fail(sub, i, "sync-succeeded-although-store-write-failed", "", wit())
+				}
+				if l := s.GetLatestSync(e.id.ID); l != nil {
+					c.Fail(sub, i, "latest-set-although-store-write-failed", l.String(), wit())
+				}
+			} else if err != nil {
+				c.Fail(sub, i, "honest-sync-failed", err.Error(), wit())
+			}
+			dst.SetWriteFault(-1, 0)
+			hl.reset()
+			got, err := s.SyncAdChain(context.Background(), e.front.AddrInfo())
+			phases = append(phases, fmt.Sprintf("retry with working store: err=%v", err))
+			audit("after retry")
+			if err != nil || !got.Equals(e.chain.Cids[headIdx]) {
+				c.Fail(sub, i, "retry-with-working-store-failed", fmt.Sprint(err), wit())
+			}
+			for x := 0; x <= headIdx; x++ {
+				raw, ok := dst.Raw(e.chain.Cids[x])
+				want, _ := e.pub.Raw(e.chain.Cids[x])
+				if !ok || !bytes.Equal(raw, want) {
+					c.Fail(sub, i, "store-differs-from-fault-free-run", fmt.Sprintf("block %d", x), wit())
+					break
+				}
+			}
+		})
+		s.Close()
+		c.Eval(2)
+		c.Distinct(sub, e.pfx.name, fmt.Sprint(at, capB/64, seg != 0))
+	}
+}
+
 func httpBodyOf(e *c02Env, c cid.Cid) ([]byte, error) {
 	return httpGet(e.front2.URL.JoinPath("/ipni/v1/ad", c.String()).String())
 }
